@@ -4,7 +4,8 @@
    transaction front-end over the flat reference store (absolute owner, rdataset) with declarative
    CNAME/other-data exclusivity.  Proofs: Proofs/Txn*.v. *)
 From DV Require Import Base.Prelude Model.NameM Model.TxnM.
-From DV Require Import Proofs.NameValid Proofs.TxnName Proofs.TxnStore Proofs.TxnLow Proofs.TxnSim Proofs.TxnThm.
+From DV Require Import Proofs.NameValid Proofs.TxnName Proofs.TxnStore Proofs.TxnLow Proofs.TxnSim Proofs.TxnThm
+                       Proofs.TxnIrrel Proofs.TxnSpec.
 Open Scope Z_scope.
 
 (* Any history of transactions - every operation and argument form, manual commit/rollback or with-block,
@@ -71,6 +72,143 @@ Theorem readonly_changes_nothing :
 Proof. exact @readonly_never_changes. Qed.
 Print Assumptions readonly_changes_nothing.
 
+(* ---------------------------------------------------------------- name form / configuration *)
+(* Two histories that differ only in how owner names are spelled (relative or absolute, letter case:
+   `ES`), run on zones of any class with relativize on or off (c1, c2 share only the origin) that hold
+   the same content, give the same result for every call and end with the same content. *)
+Theorem name_form_irrelevant :
+  forall c1 c2, wfc c1 -> wfc c2 -> c_origin c1 = c_origin c2 ->
+  forall h1 h2 z1 z2, Forall2 (spec_rel (ES c1 c2)) h1 h2 -> same_zone c1 c2 z1 z2 ->
+  Forall2 (fun x y => fst x = fst y /\ same_zone c1 c2 (snd x) (snd y)) (impl_hist c1 h1 z1) (impl_hist c2 h2 z2).
+Proof. exact impl_irrelevant. Qed.
+Print Assumptions name_form_irrelevant.
+
+Theorem same_content_looks_the_same :
+  forall c1 c2, wfc c1 -> wfc c2 ->
+  forall z1 z2 n1 n2, same_zone c1 c2 z1 z2 -> ES c1 c2 n1 n2 -> zone_get_node c1 z1 n1 = zone_get_node c2 z2 n2.
+Proof. exact same_zone_observe. Qed.
+Print Assumptions same_content_looks_the_same.
+
+(* the spellings the property names are instances of ES *)
+Theorem relative_and_absolute_are_the_same_owner :
+  forall c r, wfc c -> Valid r -> is_absolute r = false -> Valid (r ++ c_origin c) -> ES c c r (r ++ c_origin c).
+Proof. exact ES_rel_abs. Qed.
+Print Assumptions relative_and_absolute_are_the_same_owner.
+
+Theorem letter_case_is_the_same_owner :
+  forall c n n', wfc c -> Valid n -> Valid n' -> ci n n' -> is_absolute n = true -> ES c c n n'.
+Proof. exact ES_case. Qed.
+Print Assumptions letter_case_is_the_same_owner.
+
+(* ---------------------------------------------------------------- what the reference model predicts *)
+(* get after put on the reference store: the stored rdataset; CNAME / other-data exclusivity *)
+Theorem reference_get_after_put :
+  forall c s n r s' n' a a' ty cov,
+  swf (rs_entries s) -> r_cls r = cIN -> canon c n = Ok a -> canon c n' = Ok a' ->
+  r_put c s n r = Ok s' ->
+  r_get c s' n' ty cov =
+  if name_eqb a a' then
+    if (r_ty r =? ty) && (r_cov r =? cov) then Ok (Some r)
+    else match r_get c s n' ty cov with
+         | Ok (Some x) => if evicts_rds (classify_rds r) x then Ok None else Ok (Some x)
+         | o => o
+         end
+  else r_get c s n' ty cov.
+Proof. exact r_get_put. Qed.
+Print Assumptions reference_get_after_put.
+
+Theorem reference_get_after_delete :
+  forall c s n s' n' a a' ty0 cov0 ty cov,
+  swf (rs_entries s) -> canon c n = Ok a -> canon c n' = Ok a' ->
+  r_del_rds c s n ty0 cov0 = Ok s' ->
+  r_get c s' n' ty cov = if name_eqb a a' && (ty0 =? ty) && (cov0 =? cov) then Ok None else r_get c s n' ty cov.
+Proof. exact r_get_del_rds. Qed.
+Print Assumptions reference_get_after_delete.
+
+Theorem reference_exists_after_delete_name :
+  forall c s n s' n' a a',
+  canon c n = Ok a -> canon c n' = Ok a' -> r_del_name c s n = Ok s' ->
+  r_exists c s' n' = if name_eqb a a' then Ok false else r_exists c s n'.
+Proof. exact r_exists_del_name. Qed.
+Print Assumptions reference_exists_after_delete_name.
+
+(* merge: TTL minimisation, union for plain types, newest record for singleton types *)
+Theorem merge_ttl_is_min :
+  forall e r, r_ttl (rds_union e r) = match r_items e with [] => r_ttl r | _ => Z.min (r_ttl e) (r_ttl r) end.
+Proof. exact union_ttl. Qed.
+Print Assumptions merge_ttl_is_min.
+
+Theorem merge_plain_is_union :
+  forall e r, is_singleton (r_ty e) = false ->
+  (forall x, mem x (r_items (rds_union e r)) = mem x (r_items e) || mem x (r_items r)) /\
+  exists suffix, r_items (rds_union e r) = r_items e ++ suffix.
+Proof. exact union_items_plain. Qed.
+Print Assumptions merge_plain_is_union.
+
+Theorem merge_singleton_keeps_newest :
+  forall e r, is_singleton (r_ty e) = true ->
+  r_items (rds_union e r) = match rev (r_items r) with [] => r_items e | newest :: _ => [newest] end.
+Proof. exact union_items_singleton. Qed.
+Print Assumptions merge_singleton_keeps_newest.
+
+Theorem delete_is_difference :
+  forall e r, NoDup (r_items e) ->
+  (forall x, mem x (r_items (rds_difference e r)) = mem x (r_items e) && negb (mem x (r_items r))) /\
+  r_ttl (rds_difference e r) = r_ttl e.
+Proof. exact difference_items. Qed.
+Print Assumptions delete_is_difference.
+
+Theorem delete_exact_test :
+  forall e r, r_cls e = r_cls r -> tkey e = tkey r -> NoDup (r_items e) -> NoDup (r_items r) ->
+  (rds_eqb (rds_intersection e r) r = true <-> forall x, In x (r_items r) -> In x (r_items e)).
+Proof. exact exact_test. Qed.
+Print Assumptions delete_exact_test.
+
+(* reads inside a transaction see its own writes (zone model) *)
+Theorem read_your_writes :
+  forall c, wfc c -> forall v s n r v' n',
+  R c v s -> Valid n -> Valid n' -> r_cls r = cIN -> res_rel ci (canon c n) (canon c n') ->
+  put_rdataset c v n r = Ok v' ->
+  match canon c n with
+  | Ok _ => get_rdataset c v' n' (r_ty r) (r_cov r) = Ok (Some r)
+  | _ => True
+  end.
+Proof. exact TxnSpec.read_your_writes. Qed.
+Print Assumptions read_your_writes.
+
+Theorem add_then_get_returns_the_union :
+  forall c, wfc c -> forall v s n r v',
+  R c v s -> Valid n -> r_cls r = cIN -> (r_ty r =? tSOA) = false ->
+  hl_add (zstore c) c false [AName n; ARds r] v = Ok v' ->
+  exists old, get_rdataset c v n (r_ty r) (r_cov r) = Ok old /\
+    get_rdataset c v' n (r_ty r) (r_cov r) = Ok (Some (match old with Some e => rds_union e r | None => r end)).
+Proof. exact add_then_get. Qed.
+Print Assumptions add_then_get_returns_the_union.
+
+(* RFC 1982 serial increments (dns.serial.Serial.__add__ as used by update_serial) *)
+Theorem serial_rfc1982 :
+  forall v d, 0 <= v < 4294967296 -> 1 <= d <= 2147483647 ->
+  exists s, serial_add v d = Ok s /\ s = (v + d) mod 4294967296 /\ serial_lt v s.
+Proof. exact serial_increment. Qed.
+Print Assumptions serial_rfc1982.
+
+Theorem serial_rfc1982_zero_skipped :
+  forall v d s, 0 <= v < 4294967296 -> 1 <= d <= 2147483646 -> serial_add v d = Ok s -> serial_lt v (bump s).
+Proof. exact serial_increment_bumped. Qed.
+Print Assumptions serial_rfc1982_zero_skipped.
+
+Theorem serial_too_large_increment_refused :
+  forall v d, d > 2147483647 -> serial_add v d = Lib eValueError.
+Proof. exact serial_increment_refused. Qed.
+Print Assumptions serial_too_large_increment_refused.
+
+(* the one corner where "0 becomes 1" lands at distance exactly 2^31 (undefined in RFC 1982) *)
+Theorem serial_zero_skip_corner_refuted :
+  exists v d s, 0 <= v < 4294967296 /\ 1 <= d <= 2147483647 /\ serial_add v d = Ok s /\
+                ~ serial_lt v (bump s) /\ ~ serial_lt (bump s) v.
+Proof. exact serial_corner_refuted. Qed.
+Print Assumptions serial_zero_skip_corner_refuted.
+
 (* ---------------------------------------------------------------- non-vacuity *)
 Definition ex_origin : name := [[101; 120]; []].                    (* ex. *)
 Definition ex_cfg : cfg := mkCfg 0 true ex_origin.
@@ -111,3 +249,14 @@ Example ex_run :
   [ ([N], [(ex_www, [ex_a])]);
     ([N; ob false; E eInjected], [(ex_www, [ex_a])]) ].
 Proof. vm_compute. reflexivity. Qed.
+
+(* the two spellings of `w` in zone ex. are the same owner; the two configurations hold the same content *)
+Example ex_same_owner : ES ex_cfg (mkCfg 2 false ex_origin) ex_www ex_www_abs.
+Proof.
+  split; [|split]; [| |vm_compute; reflexivity].
+  - repeat split; [repeat constructor; cbn; lia|cbn; lia|constructor].
+  - repeat split; [repeat constructor; cbn; lia|cbn; lia|repeat constructor; discriminate].
+Qed.
+
+Example ex_same_zone : same_zone ex_cfg (mkCfg 2 false ex_origin) [] [].
+Proof. exists [], []. split; [apply RP_empty|split; [apply RP_empty|constructor]]. Qed.
